@@ -229,6 +229,11 @@ func (lc *leaderController) Term() int64 {
 // Any existing follow cursors are destroyed as is any state
 // regarding reconfigurations.
 func (lc *leaderController) NewTerm(req *proto.NewTermRequest) (*proto.NewTermResponse, error) {
+	// A write that has already passed the status check must reach the WAL before
+	// the node is fenced, so that the head entry reported here is final
+	lc.appendLock.Lock()
+	defer lc.appendLock.Unlock()
+
 	lc.Lock()
 	defer lc.Unlock()
 
